@@ -189,6 +189,14 @@ package keeper
 // number of open payments among the first k
 //@ spec openCount(has: map[str]bool, val: map[str]str, id: types.AccountID, k: int): int = ite(k <= 0, 0, openCount(has, val, id, k-1) + ite(recAt(has, val, id, k-1).State == types.PaymentOpen, 1, 0))
 
+// p is the record stored under its own payment key
+//@ spec storedAs(has: map[str]bool, val: map[str]str, p: types.Payment): bool =
+//@        has[pKey(p.AccountID, p.PaymentID)] && decode(types.Payment, val[pKey(p.AccountID, p.PaymentID)]) == p
+// every record enumerated under id's payment prefix is stored under the key made of its own ids
+//@ spec keysMatch(has: map[str]bool, val: map[str]str, id: types.AccountID): bool =
+//@        forall j: int :: 0 <= j && j < enumLen(has, apKey(id)) ==>
+//@            enumKey(has, apKey(id), j) == pKey(recAt(has, val, id, j).AccountID, recAt(has, val, id, j).PaymentID) && recAt(has, val, id, j).AccountID == id
+
 //@ lemma openCountMono(has: map[str]bool, val: map[str]str, id: types.AccountID, i: int, k: int)
 //@   induction k
 //@   requires 0 <= i && i <= k
@@ -213,6 +221,9 @@ package keeper
 
 //@ func (*keeper).accountOpenPayments
 //@   modifies ghost It_all
+//@   requires keysMatch(KVhas[k.skey], KVval[k.skey], id)
+//@   ensures [src] forall m: int :: 0 <= m && m < len(result) ==> result[m].State == types.PaymentOpen && result[m].AccountID == id && storedAs(KVhas[k.skey], KVval[k.skey], result[m])
+//@   loop 1 invariant forall m: int :: 0 <= m && m < len(payments) ==> payments[m].State == types.PaymentOpen && payments[m].AccountID == id && storedAs(KVhas[k.skey], KVval[k.skey], payments[m])
 //@   ensures [len] len(result) == openCount(KVhas[k.skey], KVval[k.skey], id, enumLen(KVhas[k.skey], apKey(id)))
 //@   ensures [elems] forall i: int :: 0 <= i && i < enumLen(KVhas[k.skey], apKey(id)) && recAt(KVhas[k.skey], KVval[k.skey], id, i).State == types.PaymentOpen ==>
 //@               result[openCount(KVhas[k.skey], KVval[k.skey], id, i)] == recAt(KVhas[k.skey], KVval[k.skey], id, i)
